@@ -218,6 +218,8 @@ HandleMetadata(c, cfg, pkt) ==
                msgs |-> msgs])
 \* _handle_fd_without_previous_metadata(True, fd)
 FdNoMd(c, cfg, pkt) ==
+  IF c.h.p.eofSize >= 0 THEN c   \* EOF already received: [0, EOF size) is tracked as lost already and stays so
+  ELSE
   LET len == Len(pkt.data)  prog == pkt.off + len
       c1 == [c EXCEPT !.h.p.progress = prog]
       c2 == IF len > 0 THEN [c1 EXCEPT !.h.p.lost = LsAdd(@, 0, prog), !.h.p.lastStart = prog, !.h.p.lastEnd = prog] ELSE c1
